@@ -1181,6 +1181,7 @@ class NPProxy:
 
     def __init__(self, exact_int=False):
         self._exact_int = exact_int
+        self.integer = _np_integer
         for name in ("uint8", "uint16", "uint32", "uint64", "int8", "int16", "int32", "int64"):
             setattr(self, name, _ScalarType(getattr(real_np, name)))
 
@@ -1249,6 +1250,8 @@ class NPProxy:
         return real_np.iinfo(_unwrap_dtype(x))
 
     def issubdtype(self, a, b):
+        if b is _np_integer:
+            b = real_np.integer
         return real_np.issubdtype(_unwrap_dtype(a), _unwrap_dtype(b))
 
     def can_cast(self, a, b, casting="safe"):
@@ -1271,6 +1274,18 @@ class NPProxy:
                         r = SInt(((r.e + (1 << 63)) % (1 << 64)) - (1 << 63), "int")
             return r
         return real_np.prod(x, *a, **kw)
+
+
+class _NpIntegerMeta(type):
+    def __instancecheck__(cls, x):
+        return isinstance(x, real_np.integer) or isinstance(x, SBV)
+
+    def __subclasscheck__(cls, c):
+        return issubclass(c, real_np.integer)
+
+
+class _np_integer(metaclass=_NpIntegerMeta):
+    """np.integer stand-in: symbolic NumPy integer scalars are instances."""
 
 
 def active_ctx():
